@@ -72,6 +72,15 @@ class ThreadLock:
         self.log.append((tid, 'rel'))
         s.unblock(self)
 
+    # a threading.Lock is also a context manager
+    def __enter__(self):
+        self.acquire()
+        return True
+
+    def __exit__(self, *a):
+        self.release()
+        return False
+
     def locked(self):
         return self.owner is not None
 
@@ -92,6 +101,8 @@ class Sched:
         self.switches = 0
         self.deadlock = False
         self.abort = False
+        self.integrity = None
+        self.replaced = False
         self.faults = faults or []      # list of {'tid':, 'point':}
         self.fired = []
         self.files = store_files()
@@ -153,6 +164,14 @@ class Sched:
     def point(self, tid, frame, kind='line'):
         with self.cv:
             if self.abort:
+                raise _Abort()
+            if self.integrity is not None and not self.integrity():
+                # the store singleton or its lock was swapped for another object: from here on real locks would be
+                # taken behind the scheduler's back; stop the run (the oracle reports the swap)
+                self.replaced = True
+                self.abort = True
+                self.current = 'main'
+                self.cv.notify_all()
                 raise _Abort()
             self.total_points += 1
             if kind == 'line':
@@ -240,6 +259,9 @@ class W1TWorld(World):
             # finer than the property's stated granularity (every source line of the store): also at the entry of
             # every function store code calls, i.e. between the calls one source line makes
             'call_preempt': rng.random() < 0.25,
+            # every operation of every thread addresses the one contested graph (then 'delete everything' and a
+            # thread opening its own importer are meaningful under the serial-order oracle)
+            'pure_contest': rng.random() < 0.12,
             'step_cap': 10,
         }
 
@@ -287,7 +309,7 @@ class W1TWorld(World):
             has_nodes = []      # node ids currently expected in own graph
             for _ in range(cfg['ops_per_thread']):
                 k = rng.random()
-                if cfg.get('contest') and rng.random() < 0.55:
+                if cfg.get('pure_contest') or (cfg.get('contest') and rng.random() < 0.55):
                     # a graph id all threads import into, add nodes to and delete (judged against the serial orders)
                     ctr += 1
                     if k < 0.45:
@@ -299,6 +321,12 @@ class W1TWorld(World):
                         ops.append({'op': 'add_node', 'g': CONTESTED, 'n': 't%d-xn%d' % (t, ctr), 'props': False})
                     elif k < 0.93:
                         ops.append({'op': 'del_graph', 'g': CONTESTED})
+                        if cfg.get('pure_contest'):
+                            r2 = rng.random()
+                            if r2 < 0.4:
+                                ops[-1] = {'op': 'del_all', 'g': CONTESTED}
+                            elif r2 < 0.7:
+                                ops[-1] = {'op': 'new_importer', 'g': CONTESTED}
                     else:
                         ids = ['t%d-xd%d-%d' % (t, ctr, i) for i in range(rng.randint(1, 2))]
                         ops.append({'op': 'add_graph_direct', 'g': CONTESTED, 'ids': ids, 'edges': []})
@@ -412,6 +440,8 @@ class W1TWorld(World):
             sched.change_points = set(rng.randint(1, 120) for _ in range(self.cfg['pct_depth']))
         lock = ThreadLock(sched)
         inst.lock = lock
+        sched.replaced = False
+        sched.integrity = lambda: type(imp.storage).storage_instance is inst and inst.lock is lock
         files = sched.files
         results = {t: [] for t in range(nthreads)}
         crashed_graphs = set()
@@ -446,6 +476,10 @@ class W1TWorld(World):
                 pg.add_link(node_a=op['a'], rel='has', node_b=op['b'])
             elif op['op'] == 'del_graph':
                 inst.del_graph(g)
+            elif op['op'] == 'del_all':
+                imp.delete_all_graphs()
+            elif op['op'] == 'new_importer':
+                type(imp)()        # another session opens its own importer on the same store
             elif op['op'] == 'extract':
                 inst.extract_graph(g)
 
@@ -523,6 +557,8 @@ class W1TWorld(World):
                 if _time.time() - t0 > WALL_GUARD_S:
                     sched.abort = True
                     sched.cv.notify_all()
+                    if not sched.integrity():
+                        break
                     raise HarnessError('threaded run exceeded the wall-clock guard (%ss)' % WALL_GUARD_S)
         for th in ths:
             th.join(timeout=5.0)
@@ -542,6 +578,13 @@ class W1TWorld(World):
         self.nontrivial = sched.switches > 0 and (not self.cfg.get('inject') or bool(sched.fired) or True)
 
         # ---------------- oracles
+        cur = type(imp.storage).storage_instance
+        if cur is not inst or getattr(cur, 'lock', None) is not lock:
+            raise Violation('C20', 'lock_stays_the_lock', {'store': store, 'symptom': 'store_replaced' if cur is not inst
+                                                          else 'lock_replaced'},
+                            'after the run the %s is not the object it was before: callers that hold or wait for the '
+                            'old lock are no longer excluded from those using the new one' %
+                            ('store singleton' if cur is not inst else "store's lock"))
         where = sched.fired[0] if sched.fired else {}
         sigx = {'injected': bool(sched.fired), 'func': where.get('func', ''), 'line': where.get('line', '')}
         if call_preempt:
@@ -733,7 +776,7 @@ class W1TWorld(World):
                         frozenset(frozenset({op['ids'][a], op['ids'][b]}) for a, b in op['edges']))
             if k == 'add_node':
                 return (nodes | {op['n']}, edges)
-            if k == 'del_graph':
+            if k in ('del_graph', 'del_all'):
                 return (frozenset(), frozenset())
             return state
         finals = set()
